@@ -46,7 +46,8 @@ def cp_axioms(ctx):
         z3.ForAll([c], z3.Implies(cp_enc_ok(c), z3.And(0 <= cp_enc(c), cp_enc(c) < 256, cp_dec_ok(cp_enc(c)), cp_dec(cp_enc(c)) == c, c >= 0))),
         z3.ForAll([c], z3.Implies(cp_enc_ok(c), (cp_enc(c) == 0) == (c == 0))),
         z3.ForAll([b], z3.Implies(z3.And(0 <= b, b < 256, cp_dec_ok(b)), z3.And(cp_enc_ok(cp_dec(b)), cp_enc(cp_dec(b)) == b))),
-        cp_enc_ok(0), cp_dec_ok(0), cp_dec(0) == 0))
+        cp_enc_ok(0), cp_dec_ok(0), cp_dec(0) == 0,
+        z3.ForAll([c], z3.Implies(z3.And(0 <= c, c < 128), z3.And(cp_enc_ok(c), cp_enc(c) == c, cp_dec_ok(c), cp_dec(c) == c)))))
 
 
 def other_codec(name):
